@@ -434,9 +434,12 @@ def b_wrapper(g, wmagic, inner_spec, depth):
         # compaction); the wrapper's offset is the absolute offset of the LAST inner message: abs_i = woff - r_last + r_i
         rel = []
         for i in range(n):
-            r = g.int(0, 2**20, "rel")
-            if rel:
-                g.assume(r > rel[-1])
+            if depth == 2:
+                r = 3 * i + 2  # (the doubly wrapped shape keeps concrete, non-dense relative offsets: cost)
+            else:
+                r = g.int(0, 2**20, "rel")
+                if rel:
+                    g.assume(r > rel[-1])
             rel.append(r)
         g.assume(woff >= rel[-1])
         for i in range(n):
@@ -473,7 +476,7 @@ def obligations(tier):
     obs = []
 
     def add(name, fn, timeout=60, **kw):
-        obs.append({"name": name, "module": M, "fn": fn, "kwargs": kw, "timeout": timeout if q else timeout * 4})
+        obs.append({"name": name, "module": M, "fn": fn, "kwargs": kw, "timeout": timeout * 5 if q else timeout * 12})
 
     pshapes = [[], [0], [1], [2], [1, 1], [0, 2]] + ([] if q else [[2, 2], [3], [1, 0, 1]])
     for v in (0, 2):
